@@ -7,53 +7,15 @@ namespace glm{
 namespace detail
 {
 	template<bool is_float, bool is_signed>
-	struct compute_roundMultiple {};
-
-	template<>
-	struct compute_roundMultiple<true, true>
+	struct compute_roundMultiple
 	{
 		template<typename genType>
 		GLM_FUNC_QUALIFIER static genType call(genType Source, genType Multiple)
 		{
-			if (Source >= genType(0))
-				return Source - std::fmod(Source, Multiple);
-			else
-			{
-				genType Tmp = Source + genType(1);
-				return Tmp - std::fmod(Tmp, Multiple) - Multiple;
-			}
-		}
-	};
-
-	template<>
-	struct compute_roundMultiple<false, false>
-	{
-		template<typename genType>
-		GLM_FUNC_QUALIFIER static genType call(genType Source, genType Multiple)
-		{
-			if (Source >= genType(0))
-				return Source - Source % Multiple;
-			else
-			{
-				genType Tmp = Source + genType(1);
-				return Tmp - Tmp % Multiple - Multiple;
-			}
-		}
-	};
-
-	template<>
-	struct compute_roundMultiple<false, true>
-	{
-		template<typename genType>
-		GLM_FUNC_QUALIFIER static genType call(genType Source, genType Multiple)
-		{
-			if (Source >= genType(0))
-				return Source - Source % Multiple;
-			else
-			{
-				genType Tmp = Source + genType(1);
-				return Tmp - Tmp % Multiple - Multiple;
-			}
+			// nearest of the two enclosing multiples, the upper one on a tie
+			genType const Floor = compute_floorMultiple<is_float, is_signed>::call(Source, Multiple);
+			genType const Delta = Source - Floor;
+			return Delta < Multiple - Delta ? Floor : Floor + Multiple;
 		}
 	};
 }//namespace detail
